@@ -401,8 +401,9 @@ Qed.
 Lemma c93_src_vals_ok s : forallb is_ascii s = true -> c93_vals_ok (flat_map c93_src_vals s).
 Proof.
   induction s as [|b t IH]; cbn [forallb flat_map]; intros H; [constructor|].
-  apply andb_true_iff in H as [H1 H2]. apply Forall_app; split; [|auto].
-  apply c93_extended_table_is_standard. unfold is_ascii in H1; lia.
+  apply andb_true_iff in H as [H1 H2]. apply Forall_app; split; [|apply IH; exact H2].
+  destruct (c93_extended_table_is_standard b ltac:(unfold is_ascii in H1; lia)) as (_ & V & _).
+  exact V.
 Qed.
 
 Lemma c93_prepare_runes_ascii s : forallb is_ascii s = true ->
@@ -567,5 +568,47 @@ Qed.
 (* the hypotheses are satisfiable *)
 Lemma c93_example :
   exists bc, c93_encode [67; 111; 100; 101; 32; 57; 51; 42] true true = Ok bc
-             /\ bc_width bc = 1 /\ bc_checksum bc = None.
+             /\ bc_width bc = 145 /\ bc_checksum bc = None.
 Proof. eexists. vm_compute. repeat split; reflexivity. Qed.
+
+(* ---------- statements without the auxiliary definitions of this file ---------- *)
+Lemma c93_extended_table_standard_ex b : 0 <= b <= 127 ->
+  exists vals, zget code93_extended_table b = Some (c93_values_text vals)
+               /\ Forall (fun v => 0 <= v < 47) vals /\ In vals (c93_spellings b).
+Proof. intros H. exists (c93_src_vals b). apply c93_extended_table_is_standard; exact H. Qed.
+
+Lemma c93_unspell_spell_ex s : forallb is_ascii s = true ->
+  exists vals,
+    c93_values_text vals
+    = flat_map (fun b => match zget code93_extended_table b with Some e => e | None => [] end) s
+    /\ c93_unspell vals = Some s.
+Proof.
+  intros H. exists (flat_map c93_src_vals s). split; [|apply c93_unspell_spell; exact H].
+  induction s as [|b t IH]; [reflexivity|]. cbn [forallb flat_map] in *.
+  apply andb_true_iff in H as [H1 H2]. rewrite c93_values_text_app, IH by exact H2.
+  destruct (c93_extended_table_is_standard b ltac:(unfold is_ascii in H1; lia)) as (Z1 & _).
+  rewrite Z1. reflexivity.
+Qed.
+
+Theorem c93_roundtrip_stmt s cs full bc : c93_encode s cs full = Ok bc ->
+  exists vals,
+    Forall (fun v => 0 <= v < 47) vals /\
+    bc = mk1d KCode93 (c93_values_text vals) None (c93_layout (c93_symbol cs vals)) /\
+    (if full
+     then c93_values_text vals
+          = flat_map (fun b => match zget code93_extended_table b with Some e => e | None => [] end) s
+          /\ c93_unspell vals = Some s
+     else c93_values_text vals = s) /\
+    c93_decode_values cs (c93_layout (c93_symbol cs vals)) = Some vals /\
+    c93_decode cs full (c93_layout (c93_symbol cs vals)) = Some s /\
+    c93_accepts full s = true.
+Proof.
+  intros HE. destruct (c93_roundtrip s cs full bc HE) as (vals & V & B & T & D1 & D2 & A).
+  exists vals. repeat split; try assumption.
+  destruct full; [|exact T]. destruct T as (-> & U). split; [|exact U].
+  cbn [c93_accepts] in A. clear - A.
+  induction s as [|b t IH]; [reflexivity|]. cbn [forallb flat_map] in *.
+  apply andb_true_iff in A as [H1 H2]. rewrite c93_values_text_app, IH by exact H2.
+  destruct (c93_extended_table_is_standard b ltac:(unfold is_ascii in H1; lia)) as (Z1 & _).
+  rewrite Z1. reflexivity.
+Qed.
